@@ -353,7 +353,9 @@ def correspondence(ctx, verdict, pr):
     rc, log, go = run_go(ctx, golines, 'phase2')
     lap('go_driver')
     if rc != 0:
-        res['broken'].append(('Go driver TestVerifC04 failed to build or run', log[-3000:]))
+        died = next((c for c in S if c['id'] not in go), None)
+        res['broken'].append(('Go driver TestVerifC04 failed to build or run', log[-3000:] +
+                              ('\nfirst session case without output (the process may have died in it): ' + c04_sess.go_line(died)[:600] if died else '')))
     # 3. the model decodes and re-encodes what Go produced
     m2 = []
     gparsed = {}
